@@ -67,6 +67,16 @@ type Case struct {
 	// made with DialEarly: the client's streams are opened and written (and its datagrams sent) before the handshake
 	// has completed. Faults, loss window and blackouts apply to the measured connection only.
 	Early bool `json:"early,omitempty"`
+	// EarlyReject (only with Early): after the preliminary connection the server's listener is replaced by one (same
+	// transport, same TLS configuration, hence the same ticket keys) that does not accept 0-RTT: the TLS session is
+	// resumed, the early data is rejected. The client application does what the API documents: its stream calls of the
+	// first attempt fail with Err0RTTRejected, it calls NextConnection and does ALL its transfers again from the start
+	// on the returned connection (fresh Open calls: the stream IDs start over). The bytes it writes during the rejected
+	// attempt differ from those of the second one, so that a reader can tell them apart.
+	EarlyReject bool `json:"early_reject,omitempty"`
+	// EarlyRejectHow: "" = the new listener has Allow0RTT off | "limits" = Allow0RTT on, but the stream limits it
+	// advertises are lower than those remembered with the ticket
+	EarlyRejectHow string `json:"early_reject_how,omitempty"`
 }
 
 // GenUnit is the unit that generator exclusions are counted under.
@@ -191,8 +201,22 @@ func GenCase(t *rapid.T) Case {
 			}
 			c.Faults = append(fl, c.Faults...)
 		}
+		if !NoEarlyReject && rapid.IntRange(0, 2).Draw(t, "early_reject") == 0 {
+			c.EarlyReject = true
+			c.EarlyRejectHow = rapid.SampledFrom([]string{"", "", "limits"}).Draw(t, "early_reject_how")
+		}
 	}
 	return c
+}
+
+// NoEarlyReject makes GenCase never draw rejected 0-RTT.
+var NoEarlyReject bool
+
+// attempt is the client's part of a connection attempt that is kept apart from the judged transfers.
+type attempt struct {
+	o   *outcome
+	fwd [][]byte
+	wg  sync.WaitGroup
 }
 
 // NoEarly makes GenCase never draw the 0-RTT dimension.
@@ -237,6 +261,7 @@ type streamResult struct {
 	wrote     int
 	closed    bool
 	cancelled bool
+	opened    bool
 }
 
 type outcome struct {
@@ -244,6 +269,8 @@ type outcome struct {
 	results  []*streamResult
 	verdict  *vf.Verdict
 	dgramsRx map[string]int
+	// rejected: what the client wrote on stream i during a rejected 0-RTT attempt (nil otherwise)
+	rejected [][]byte
 }
 
 func (o *outcome) bad(v *vf.Verdict) {
@@ -316,6 +343,11 @@ func readAll(rd io.Reader, want []byte, bufSize int, r *streamResult, o *outcome
 			}
 			for i := 0; i < n; i++ {
 				if buf[i] != want[r.got+i] {
+					if r.dir == "fwd-read" && o.rejected != nil && r.idx < len(o.rejected) && r.got+n <= len(o.rejected[r.idx]) && n >= 4 && bytes.Equal(buf[:n], o.rejected[r.idx][r.got:r.got+n]) {
+						// the bytes the peer wrote ON THIS connection attempt are the reference; these belong to the rejected one
+						o.bad(vf.Bad("C01/early-reject/rejected-data-delivered", "%s: the %d bytes read at offset %d are what the client wrote during the REJECTED 0-RTT attempt, not what it wrote on the connection returned by NextConnection", label, n, r.got))
+						return
+					}
 					o.bad(vf.Bad("C01/stream/corrupt", "%s: byte at offset %d is %#x, writer wrote %#x (read of %d bytes at offset %d)", label, r.got+i, buf[i], want[r.got+i], n, r.got))
 					return
 				}
@@ -403,8 +435,9 @@ func runCase(c Case, u *vf.Unit, trace *any) *vf.Verdict {
 		w.Observe()
 	}
 	var aliveUntil time.Duration // set when both connections were alive at the end of the transfers
+	zeroRTTAccepted := false     // the client reports Used0RTT
 	wireVerdict := func() *vf.Verdict {
-		for _, f := range w.WireCheck(sim.WireOptions{AliveUntil: aliveUntil, FromSeq: mark, ZeroRTTSameLimits: c.Early}) {
+		for _, f := range w.WireCheck(sim.WireOptions{AliveUntil: aliveUntil, FromSeq: mark, ZeroRTTSameLimits: c.Early && !c.EarlyReject, ZeroRTTAccepted: c.Early && !c.EarlyReject && zeroRTTAccepted}) {
 			for _, pre := range curOpt.WirePrefixes {
 				if strings.HasPrefix(f.Sig, pre) {
 					return vf.Bad(f.Sig, "%s", f.Detail)
@@ -439,11 +472,12 @@ func runCase(c Case, u *vf.Unit, trace *any) *vf.Verdict {
 	sconf := conf()
 	sconf.Versions = []quic.Version{quic.Version1, quic.Version2}
 	sconf.Allow0RTT = c.Early
-	ln, err := st.Listen(sim.ServerTLS(false, w.ServerKeys), sconf)
+	stls := sim.ServerTLS(false, w.ServerKeys)
+	ln, err := st.Listen(stls, sconf)
 	if err != nil {
 		return vf.Bad("C01/harness/listen", "%v", err)
 	}
-	defer ln.Close()
+	defer func() { ln.Close() }()
 	ct := &quic.Transport{Conn: w.ClientConn}
 	defer ct.Close()
 
@@ -456,6 +490,12 @@ func runCase(c Case, u *vf.Unit, trace *any) *vf.Verdict {
 	for i, s := range c.Streams {
 		fwd[i] = pattern(c.Seed, 2*i, s.Size)
 		rev[i] = pattern(c.Seed, 2*i+1, s.RevSize)
+	}
+	reject := c.Early && c.EarlyReject
+	if reject {
+		for i, s := range c.Streams {
+			o.rejected = append(o.rejected, pattern(c.Seed+0x5eed, 2*i, s.Size))
+		}
 	}
 
 	ctls := sim.ClientTLS(w.ClientKeys)
@@ -523,6 +563,21 @@ func runCase(c Case, u *vf.Unit, trace *any) *vf.Verdict {
 		if !gotTicket {
 			u.Class("early:no-ticket")
 		}
+		if reject {
+			// the server stops accepting 0-RTT: same transport, same TLS configuration (ticket keys), new listener
+			u.Class("early-reject")
+			ln.Close()
+			rconf := sconf.Clone()
+			if c.EarlyRejectHow == "limits" {
+				rconf.MaxIncomingStreams, rconf.MaxIncomingUniStreams = 60, 60
+				u.Class("early-reject:by-lower-limits")
+			} else {
+				rconf.Allow0RTT = false
+			}
+			if ln, err = st.Listen(stls, rconf); err != nil {
+				return vf.Bad("C01/harness/listen", "second listener: %v", err)
+			}
+		}
 		mark = w.Router.ArmAll(c.Faults, c.Loss, bos)
 	}
 	traceOf := func() any {
@@ -530,10 +585,13 @@ func runCase(c Case, u *vf.Unit, trace *any) *vf.Verdict {
 		return tr[min(mark, len(tr)):]
 	}
 	// what the 0-RTT dimension exercised (counted for every outcome)
-	used0RTT := false
+	used0RTT, rejectUnsent := false, false
 	defer func() {
 		if !c.Early || mark == 0 {
 			return
+		}
+		if rejectUnsent {
+			u.Class("early-reject:unsent-data-at-rejection")
 		}
 		if used0RTT {
 			u.Class("early:0rtt-used")
@@ -618,7 +676,14 @@ func runCase(c Case, u *vf.Unit, trace *any) *vf.Verdict {
 	}
 	cconn := dr.conn
 	var wg sync.WaitGroup
-	side := func(me *quic.Conn, mine string) {
+	// first: the client's part of a 0-RTT attempt that is going to be rejected: its own results and bytes, only the
+	// calls a client makes before it knows (open and write its streams, read the reverse directions)
+	first := &attempt{o: &outcome{dgramsRx: map[string]int{}}, fwd: o.rejected}
+	side := func(me *quic.Conn, mine string, att *attempt) {
+		o, fwd, wg := o, fwd, &wg
+		if att != nil {
+			o, fwd, wg = att.o, att.fwd, &att.wg
+		}
 		// open my streams in order, accept the peer's in order
 		var myIdx, peerBidi, peerUni []int
 		for i, s := range c.Streams {
@@ -645,6 +710,7 @@ func runCase(c Case, u *vf.Unit, trace *any) *vf.Verdict {
 						r.writeErr = err
 						continue
 					}
+					r.opened = true
 					wg.Add(1)
 					go func() { defer wg.Done(); writeAll(str, fwd[i], s.Chunks, s.NoClose, s.CancelAt, r) }()
 				} else {
@@ -653,6 +719,7 @@ func runCase(c Case, u *vf.Unit, trace *any) *vf.Verdict {
 						r.writeErr = err
 						continue
 					}
+					r.opened = true
 					wg.Add(2)
 					go func() { defer wg.Done(); writeAll(str, fwd[i], s.Chunks, s.NoClose, s.CancelAt, r) }()
 					rr := &streamResult{idx: i, dir: "rev"}
@@ -666,6 +733,9 @@ func runCase(c Case, u *vf.Unit, trace *any) *vf.Verdict {
 				}
 			}
 		}()
+		if att != nil {
+			return
+		}
 		wg.Add(2)
 		go func() { // bidi acceptor
 			defer wg.Done()
@@ -751,7 +821,11 @@ func runCase(c Case, u *vf.Unit, trace *any) *vf.Verdict {
 	var ar accRes
 	if c.Early {
 		// the client's part of the scenario starts before the handshake has completed
-		side(cconn, "c")
+		if reject {
+			side(cconn, "c", first)
+		} else {
+			side(cconn, "c", nil)
+		}
 		select {
 		case ar = <-accCh:
 		case <-cconn.Context().Done():
@@ -761,11 +835,13 @@ func runCase(c Case, u *vf.Unit, trace *any) *vf.Verdict {
 			// have completed it and run into its own, longer idle timeout talking to a server that gave up)
 			cerr, at, hs := context.Cause(cconn.Context()), w.Router.Now(), true
 			used0RTT = cconn.ConnectionState().Used0RTT
+			zeroRTTAccepted = used0RTT
 			cancel()
 			if r := <-accCh; r.conn != nil {
 				r.conn.CloseWithError(0, "")
 			}
 			wg.Wait()
+			first.wg.Wait()
 			if wire {
 				return finish(wireVerdict())
 			}
@@ -788,6 +864,7 @@ func runCase(c Case, u *vf.Unit, trace *any) *vf.Verdict {
 		cconn.CloseWithError(0, "")
 		cancel()
 		wg.Wait()
+		first.wg.Wait()
 		if wire {
 			return finish(wireVerdict())
 		}
@@ -795,9 +872,59 @@ func runCase(c Case, u *vf.Unit, trace *any) *vf.Verdict {
 	}
 	sconn := ar.conn
 	if !c.Early {
-		side(cconn, "c")
+		side(cconn, "c", nil)
 	}
-	side(sconn, "s")
+	side(sconn, "s", nil)
+	if reject {
+		// Accept returned: the server's handshake is complete, the client's completes with the server's Finished at the
+		// latest. What an application does (interface.go, Err0RTTRejected / NextConnection): see that 0-RTT was not
+		// used, wait for its calls to fail, call NextConnection, start over.
+		select {
+		case <-cconn.HandshakeComplete():
+		case <-cconn.Context().Done():
+		}
+		switch {
+		case cconn.Context().Err() != nil:
+			// judged below like any connection failure
+		case cconn.ConnectionState().Used0RTT:
+			// the server accepted 0-RTT although its configuration changed: not C01's business (C13 decides that), and
+			// the rest of the scenario is meaningless
+			u.Class("early-reject:accepted-anyway")
+			used0RTT = true
+			cconn.CloseWithError(0, "done")
+			sconn.CloseWithError(0, "done")
+			cancel()
+			wg.Wait()
+			first.wg.Wait()
+			return finish(nil)
+		default:
+			firstDone := make(chan struct{})
+			go func() { first.wg.Wait(); close(firstDone) }()
+			if !sim.WaitCtx(firstDone, 60*time.Second) && cconn.Context().Err() == nil {
+				v := vf.Bad("C01/early-reject/call-not-unblocked", "0-RTT was rejected and the handshake is complete, but 60 s later a stream call of the rejected attempt has still not returned (documented: they fail with Err0RTTRejected); first attempt: %s", summarize(first.o))
+				cconn.CloseWithError(0, "done")
+				sconn.CloseWithError(0, "done")
+				cancel()
+				wg.Wait()
+				first.wg.Wait()
+				if wire {
+					return finish(wireVerdict())
+				}
+				return finish(v)
+			}
+			first.o.mu.Lock()
+			for _, r := range first.o.results {
+				if r.dir == "fwd" && r.opened && errors.Is(r.writeErr, quic.Err0RTTRejected) && r.wrote < len(first.fwd[r.idx]) {
+					// a Write (or the Open before it) was cut short by the rejection: the stream still had data to send
+					rejectUnsent = true
+				}
+			}
+			first.o.mu.Unlock()
+			if nconn, err := cconn.NextConnection(ctx); err == nil && nconn != nil && cconn.Context().Err() == nil {
+				side(nconn, "c", nil)
+			}
+		}
+	}
 
 	// Streams the acceptor never learns about (NoClose + size 0) cannot be waited for: the generator always
 	// writes or closes. Wait for all transfers, bounded in virtual time.
@@ -836,6 +963,7 @@ func runCase(c Case, u *vf.Unit, trace *any) *vf.Verdict {
 	cerr, serr := context.Cause(cconn.Context()), context.Cause(sconn.Context())
 	endAt := w.Router.Now()
 	used0RTT = cconn.ConnectionState().Used0RTT
+	zeroRTTAccepted = used0RTT
 	if cerr == nil && serr == nil {
 		aliveUntil = endAt
 	}
@@ -843,11 +971,13 @@ func runCase(c Case, u *vf.Unit, trace *any) *vf.Verdict {
 	sconn.CloseWithError(0, "done")
 	cancel()
 	wg.Wait()
+	first.wg.Wait()
 	*trace = traceOf()
 
 	if wire {
-		wireClasses(w, u)
-		if v := wireVerdict(); v != nil {
+		v := wireVerdict()
+		wireClasses(w, u) // after WireCheck: includes its counters
+		if v != nil {
 			return v
 		}
 		if len(w.Router.AppliedFaults()) > 0 {
@@ -952,6 +1082,9 @@ func runCase(c Case, u *vf.Unit, trace *any) *vf.Verdict {
 		}
 	}
 	if complete && cerr == nil && serr == nil && !stalled {
+		if reject {
+			u.Class("early-reject:next-connection-completed")
+		}
 		u.Class("completed")
 		nt()
 		if u.WantSample() && len(w.Router.AppliedFaults()) > 0 {
@@ -1048,7 +1181,12 @@ func judgeFailure(c Case, w *sim.World, who string, err error, at time.Duration,
 		if errors.Is(err, context.DeadlineExceeded) || errors.Is(err, context.Canceled) {
 			isHS = true // Dial/Accept gave up on the harness' 150 s context
 		} else {
-			return vf.Bad("C01/conn/unjustified-error", "%s failed with %v although the network only lost / duplicated / delayed / corrupted datagrams (faults applied: %v)", who, err, w.Router.AppliedFaults())
+			sig := "C01/conn/unjustified-error"
+			if c.Early && c.EarlyReject {
+				// same criterion, own label: the connection returned by NextConnection after a rejected 0-RTT attempt
+				sig = "C01/early-reject/connection-error"
+			}
+			return vf.Bad(sig, "%s failed with %v although the network only lost / duplicated / delayed / corrupted datagrams (faults applied: %v)", who, err, w.Router.AppliedFaults())
 		}
 	}
 	// A timeout is justified only if the endpoint that gave up received no intact datagram for the whole
@@ -1224,6 +1362,9 @@ func wireClasses(w *sim.World, u *vf.Unit) {
 	}
 	u.ClassN("packets-1rtt", n1rtt)
 	u.ClassN("packets-0rtt", n0rtt)
+	for k, v := range w.Judged {
+		u.ClassN("opened-by-peer:"+k, v)
+	}
 	u.ClassN("frames-ack", nAck)
 	u.ClassN("frames-stream", nStream)
 	u.ClassN("frames-max", nMax)
